@@ -209,6 +209,26 @@ impl<'a, T> Iterator for Iter<'a, T> {
     }
 }
 
+// verification hook (off unless built with `--cfg abra_verif`): the raw layout of the set —
+// (address, len, capacity) of every buffer (retired ones first, the current one last), the
+// addresses in `id_to_ptr`, and the (address, id) pairs stored as keys of `map`.
+#[cfg(abra_verif)]
+impl<T: Hash + Eq> IdSet<T> {
+    #[allow(clippy::type_complexity)]
+    pub fn verif_layout(&self) -> (Vec<(usize, usize, usize)>, Vec<usize>, Vec<(usize, u32)>) {
+        let mut bufs: Vec<(usize, usize, usize)> =
+            self.old_bufs.iter().map(|b| (b.as_ptr() as usize, b.len(), b.capacity())).collect();
+        bufs.push((
+            self.current_buf.as_ptr() as usize,
+            self.current_buf.len(),
+            self.current_buf.capacity(),
+        ));
+        let ids = self.id_to_ptr.iter().map(|&p| p as usize).collect();
+        let keys = self.map.iter().map(|(k, &v)| (k.0 as usize, v)).collect();
+        (bufs, ids, keys)
+    }
+}
+
 // IntoIterator for &IdSet<T>
 
 impl<'a, T: Hash + Eq> IntoIterator for &'a IdSet<T> {
